@@ -3,6 +3,8 @@ package nodeutil
 import (
 	"bytes"
 	"errors"
+	"io"
+	"strings"
 	"unicode/utf8"
 
 	"github.com/freeconf/yang/meta"
@@ -326,6 +328,7 @@ func H_C15_wtr_start_selection(s any) {
 // an output stream error is returned, not lost
 type c15FailWriter struct {
 	n, failAt int
+	failed    bool
 }
 
 var errC15Write = errors.New("vp write failure")
@@ -333,6 +336,7 @@ var errC15Write = errors.New("vp write failure")
 func (w *c15FailWriter) Write(p []byte) (int, error) {
 	w.n++
 	if w.n == w.failAt {
+		w.failed = true
 		return 0, errC15Write
 	}
 	return len(p), nil
@@ -343,11 +347,163 @@ func H_C15_wtr_stream_error(s any) {
 	m := s.(*meta.Module)
 	st := newMemStore()
 	st.quiet = true
-	st.root.ensureKid(st, "c").leaves["s"] = val.String("abc")
+	c := st.root.ensureKid(st, "c")
+	c.leaves["s"] = val.String("abc")
 	st.root.leaves["top"] = val.String("t")
-	fw := &c15FailWriter{failAt: 1} // bufio flushes once at the end for small outputs: the first Write is the only one
-	wtr := &JSONWtr{Out: fw}
-	err := node.NewBrowser(m, st.node()).Root().UpsertInto(wtr.Node())
-	vpAssert(err != nil && errors.Is(err, errC15Write), "an output stream error is returned")
+	l := st.root.ensureList(st, "l")
+	big := vpBool() // more than one bufio buffer: the failing Write can be an intermediate flush or the final one
+	for i := 0; i < 2; i++ {
+		row := l.addRow(st, val.UInt8(uint8(i)))
+		row.leaves["k"] = val.UInt8(uint8(i))
+		if big {
+			row.leaves["v"] = val.String(strings.Repeat("x", 3000))
+		} else {
+			row.leaves["v"] = val.String("v")
+		}
+	}
+	if big {
+		c.leaves["s"] = val.String(strings.Repeat("y", 5000))
+	}
+	paths := []string{"", "c", "l", "l=1"}
+	sel := node.NewBrowser(m, st.node()).Root()
+	if pi := vpChoose(len(paths)); pi > 0 {
+		var ferr error
+		sel, ferr = sel.Find(paths[pi])
+		vpAssert(ferr == nil && sel != nil, "selection found")
+	}
+	fw := &c15FailWriter{failAt: 1 + vpChoose(3)}
+	wtr := &JSONWtr{Out: fw, Pretty: vpBool()}
+	err := sel.UpsertInto(wtr.Node())
+	if fw.failed {
+		vpAssert(err != nil && errors.Is(err, errC15Write), "an output stream error is returned whatever the start selection and whichever Write fails")
+	} else {
+		vpAssert(err == nil, "no failure, no error")
+	}
+	if fw.failAt == 1 {
+		vpAssert(fw.failed, "the first Write always happens")
+	}
+	vpCover("reached")
+}
+
+// member names when three modules contribute to one tree: a grouping from an imported module, nodes augmented
+// by another module (a list, a leaf, a leaf inside the foreign grouping's container). The expected name of every
+// member is derived here from the schema alone: qualified at the top level and wherever the defining module differs
+// from that of the enclosing node.
+func c15xOpener(name string, ext string) (io.Reader, error) {
+	switch name {
+	case "gmod":
+		return strings.NewReader(`module gmod { namespace "urn:g"; prefix g; grouping bg { container gc { leaf gx { type string; } } leaf-list gl { type string; } } }`), nil
+	case "m":
+		return strings.NewReader(`module m { namespace "urn:m"; prefix m; import gmod { prefix g; } container c { uses g:bg; leaf own { type string; } list ml { key "k"; leaf k { type string; } } } leaf top { type string; } }`), nil
+	case "ext":
+		return strings.NewReader(`module ext { namespace "urn:e"; prefix e; import m { prefix m; }
+			augment "/m:c" { list xl { key "k"; leaf k { type string; } leaf v { type string; } container xin { leaf y { type string; } } } leaf xleaf { type string; } }
+			augment "/m:c/m:gc" { leaf deep { type string; } }
+			augment "/m:c/m:ml" { leaf added { type string; } } }`), nil
+	}
+	return nil, nil
+}
+
+func S_c15x() any {
+	e, err := parser.LoadModule(c15xOpener, "ext")
+	if err != nil {
+		panic(err)
+	}
+	return e.Imports()["m"].Module()
+}
+
+// c15xNames checks the member names of obj (the JSON object written for data tree t under schema node p).
+func c15xNames(obj *jv, t *memTree, p meta.HasDataDefinitions, top bool, qualify bool) {
+	vpAssert(obj != nil && obj.kind == 'o', "object expected")
+	want := 0
+	for _, d := range p.DataDefinitions() {
+		id := d.Ident()
+		name := id
+		if qualify && (top || meta.OriginalModule(d) != meta.OriginalModule(p)) {
+			name = meta.OriginalModule(d).Ident() + ":" + id
+		}
+		switch {
+		case t.leaves[id] != nil:
+			want++
+			vpAssert(obj.get(name) != nil, "leaf member is named "+name)
+		case t.kids[id] != nil:
+			want++
+			vpAssert(obj.get(name) != nil, "container member is named "+name)
+			if obj.get(name) != nil {
+				c15xNames(obj.get(name), t.kids[id], d.(meta.HasDataDefinitions), false, qualify)
+			}
+		case t.lists[id] != nil:
+			want++
+			arr := obj.get(name)
+			vpAssert(arr != nil && arr.kind == 'a' && len(arr.vals) == len(t.lists[id].rows), "list member is named "+name)
+			if arr != nil && arr.kind == 'a' && len(arr.vals) == len(t.lists[id].rows) {
+				for i, r := range t.lists[id].rows {
+					c15xNames(arr.vals[i], r.t, d.(meta.HasDataDefinitions), false, qualify)
+				}
+			}
+		}
+	}
+	vpAssert(len(obj.keys) == want, "no other members")
+}
+
+//vp:setup S_c15x
+func H_C15_wtr_names_three_modules(s any) {
+	m := s.(*meta.Module)
+	st := newMemStore()
+	st.quiet = true
+	st.root.leaves["top"] = val.String("t")
+	c := st.root.ensureKid(st, "c")
+	c.leaves["own"] = val.String("o")
+	if vpBool() {
+		gc := c.ensureKid(st, "gc")
+		gc.leaves["gx"] = val.String("x")
+		if vpBool() {
+			gc.leaves["deep"] = val.String("d")
+		}
+	}
+	if vpBool() {
+		c.leaves["gl"] = val.StringList([]string{"a", "b"})
+	}
+	if vpBool() {
+		c.leaves["xleaf"] = val.String("xl")
+	}
+	if vpBool() {
+		xl := c.ensureList(st, "xl")
+		n := 1 + vpChoose(2)
+		for i := 0; i < n; i++ {
+			k := string(rune('a' + i))
+			row := xl.addRow(st, val.String(k))
+			row.leaves["k"] = val.String(k)
+			row.leaves["v"] = val.String("v")
+			if i == 0 {
+				row.ensureKid(st, "xin").leaves["y"] = val.String("y")
+			}
+		}
+	}
+	if vpBool() {
+		row := c.ensureList(st, "ml").addRow(st, val.String("k"))
+		row.leaves["k"] = val.String("k")
+		row.leaves["added"] = val.String("a")
+	}
+	qualify := vpBool()
+	fromC := vpBool()
+	sel := node.NewBrowser(m, st.node()).Root()
+	var p meta.HasDataDefinitions = m
+	t := st.root
+	if fromC {
+		var err error
+		sel, err = sel.Find("c")
+		vpAssert(err == nil && sel != nil, "c found")
+		p = meta.Find(m, "c").(meta.HasDataDefinitions)
+		t = c
+	}
+	var buf bytes.Buffer
+	wtr := &JSONWtr{Out: &buf, Pretty: vpBool(), QualifyNamespace: qualify}
+	vpAssert(sel.UpsertInto(wtr.Node()) == nil, "writing succeeds")
+	root, ok := jparse(buf.String())
+	vpAssert(ok && root.kind == 'o', "one well-formed object")
+	if ok && root.kind == 'o' {
+		c15xNames(root, t, p, !fromC, qualify)
+	}
 	vpCover("reached")
 }
